@@ -119,6 +119,7 @@ fn check1(backend: &str, f: &Fn1, x: f32, r: &mut Report, maxerr: Option<&String
 fn finite(x: f32) -> bool { x.is_finite() }
 fn lt63(x: f32) -> bool { x.is_finite() && x.abs() < 9.2e18 }
 fn lt31(x: f32) -> bool { x.is_finite() && x.abs() < 2147483648.0 }
+fn nonneg_all(x: f32) -> bool { x.is_finite() && x >= 0.0 }
 fn pos_finite(x: f32) -> bool { x.is_finite() && x > 0.0 }
 fn pos_normal(x: f32) -> bool { x.is_normal() && x > 0.0 && x < 1e37 }
 fn pos_normal_or_zero(x: f32) -> bool { x == 0.0 || pos_normal(x) }
@@ -154,7 +155,7 @@ fn libm_fns() -> Vec<Fn1> {
     vec![
         Fn1 { name: "floor", f: lm::floor, r: rfloor, dom: finite, b: Bound::Exact, dom_txt: "all finite" },
         Fn1 { name: "abs", f: lm::abs, r: rabs, dom: finite, b: Bound::Exact, dom_txt: "all finite" },
-        Fn1 { name: "sqrt", f: lm::sqrt, r: rsqrt, dom: nonneg, b: Bound::Ulps(1), dom_txt: "x >= 0 normal" },
+        Fn1 { name: "sqrt", f: lm::sqrt, r: rsqrt, dom: nonneg_all, b: Bound::Ulps(1), dom_txt: "x >= 0, subnormal included" },
         Fn1 { name: "recip_sqrt", f: lm::recip_sqrt, r: rrsqrt, dom: pos_finite, b: Bound::Ulps(4), dom_txt: "positive, subnormal included" },
         Fn1 { name: "sin", f: lm::sin, r: rsin, dom: finite, b: Bound::Ulps(4), dom_txt: "all finite" },
         Fn1 { name: "cos", f: lm::cos, r: rcos, dom: finite, b: Bound::Ulps(4), dom_txt: "all finite" },
@@ -172,7 +173,7 @@ fn mm_fns() -> Vec<Fn1> {
         Fn1 { name: "floor", f: mm::floor, r: rfloor, dom: finite, b: Bound::Exact, dom_txt: "all finite" },
         Fn1 { name: "abs", f: mm::abs, r: rabs, dom: finite, b: Bound::Exact, dom_txt: "all finite" },
         // bit-trick sqrt + 1 Newton step: measured below
-        Fn1 { name: "sqrt", f: mm::sqrt, r: rsqrt, dom: pos_normal_or_zero, b: Bound::Rel(2.5e-3), dom_txt: "positive normal, and +-0 (abs 1e-9)" },
+        Fn1 { name: "sqrt", f: mm::sqrt, r: rsqrt, dom: nonneg_all, b: Bound::Rel(2.5e-3), dom_txt: "x >= 0, subnormal included" },
         Fn1 { name: "recip_sqrt", f: mm::recip_sqrt, r: rrsqrt, dom: pos_finite, b: Bound::Rel(2.7e-3), dom_txt: "positive, subnormal included" },
         Fn1 { name: "sin", f: mm::sin, r: rsin, dom: angle1e3, b: Bound::Abs(2.0e-3), dom_txt: "|x| <= 1000" },
         Fn1 { name: "cos", f: mm::cos, r: rcos, dom: angle1e3, b: Bound::Abs(2.0e-3), dom_txt: "|x| <= 1000" },
